@@ -66,7 +66,7 @@ def encKind (k v : String) : Option Bytes :=
   | "u64" => v.toNat?.map putU64
   | "i64" => v.toInt?.map putInt64
   | "f64" => v.toNat?.map putDouble
-  | "bool" => if v == "1" then some (putBool true) else if v == "0" then some (putBool false) else none
+  | "bool" => if v == "1" then putBoolG true else if v == "0" then putBoolG false else none
   | "i128" => (ofHexFast v).map putInt128
   | "i256" => (ofHexFast v).map putInt256
   | "bytes" => (ofHexFast v).bind (putBytesG encB)   -- assembled from the regenerated pieces
@@ -112,6 +112,7 @@ def regenOK (k : String) (b : Bytes) : Bool :=
   | "bytes" => agree (getBytesP b) (getBytesG false b)
   | "str" => agree (getBytesP b) (getBytesG true b)
   | "vec" => agree (getVectorHeaderP b) (getVectorHeaderG b)
+  | "bool" => agree (getBoolP b) (getBoolG b)
   | "i128" => agree (getNP int128Size b) (getNG int128Size b)
   | "i256" => agree (getNP int256Size b) (getNG int256Size b)
   | _ => true
